@@ -382,6 +382,9 @@ def r6_constructor_order(ctx):
         got = []
         # first: direct call in the body ; then or_else closures in order
         firsts = [t for t in b.calls(re.compile(r"^procfs::ProcfsHandle::new_"))]
+        # constructors called in the body itself run in control-flow order (explicit `if let Ok(..) = A {return} ; B` form)
+        cfg_b = cfg_of(b)
+        firsts.sort(key=lambda t: sum(1 for u in firsts if u is not t and t.target is not None and u.bb in cfg_b.reachable(t.target)), reverse=True)
         chain = []
         for t in firsts:
             chain.append((t, b))
@@ -412,8 +415,9 @@ def r6_constructor_order(ctx):
             nm = t.callee.split("::")[-1]
             extra = ""
             if nm == "new_fsopen":
-                v = t.args[0].int_value()
-                extra = "subset=%s" % ("true" if v else "false")
+                vals = {o.const_int() for o in T.origins_of_arg(t, 0) if o.kind == "const"}
+                others = [o for o in T.origins_of_arg(t, 0) if o.kind != "const"]
+                extra = "subset=%s" % ("?" if others or len(vals) != 1 else ("true" if vals.pop() else "false"))
             elif nm == "new_open_tree":
                 bits = ipa.bits_of(body.path)
                 v = bits.arg_value(t, 0) if bits else None
